@@ -250,7 +250,7 @@ CHECKS["C18"] = {
 }
 
 CHECKS["C03"] = {
-    "runs": [R("./parser", {"fn": r"^ZZ_C03_(operator_tokens|decimal_literals|hex_literals|binary_literals|int64_edge|hex_binary_edge|float_and_malformed|float_roundtrip|string_literals|raw_string_literals|precedence_2|ternary|unary_stacking)$"},
+    "runs": [R("./parser", {"fn": r"^ZZ_C03_(operator_tokens|decimal_literals|hex_literals|binary_literals|int64_edge|hex_binary_edge|float_and_malformed|float_roundtrip|string_literals|raw_string_literals|precedence_2|precedence_2_literals|ternary|unary_stacking)$"},
                           {"fn": r"^ZZ_C03_", "wall_timeout": 10000})],
     "expect_asserts": [r"C03\.operator/==/longest-match-token", r"C03\.int-literal/base10/exact-value", r"C03\.int-literal/base16/exact-value", r"C03\.int64-edge/not-representable-rejected", r"C03\.float-literal/roundtrip/denotes-the-nearest-float64/shortest-decimal",
                        r"C03\.string-literal/denotes-exactly-what-is-written", r"C03\.precedence/\+,\*/same-tree-as-explicit-parentheses", r"C03\.ternary/same-tree-as-explicit-parentheses/.*"],
